@@ -114,7 +114,7 @@ def oracle_effective(ls, cli):
         return default
     def plain(name, default):
         for l in reversed(ls):
-            if name in l:
+            if l.get(name) is not None:        # a key without a value does not define the setting
                 return l[name]
         return default
     one = 1 if cli["quick"] or cli["setup"] else None
@@ -144,7 +144,7 @@ def coq_ival(v):
 
 def coq_lvl(d):
     def o(key, f):
-        return coq_opt(f(d[key])) if key in d else "None"
+        return coq_opt(f(d[key])) if d.get(key) is not None else "None"
     env = None
     if "env" in d:
         env = coq_list([coq_pair(coq_str(k), coq_str(v)) for k, v in sorted(d["env"].items())])
@@ -302,6 +302,10 @@ def run(chk):
                 d["retries_after_failure"] = rng.randint(0, 4)
             if rng.random() < 0.25:
                 d["env"] = {k: rng.choice(["", "1", "a b", "x=y"]) for k in rng.sample(["A", "B", "C"], rng.randint(0, 2))}
+            # a key written without a value (`max_invocation_time:`): schema-valid, defines nothing, the setting is inherited
+            for name in MARKED + [k for k in PLAIN if k != "env"]:
+                if name not in d and rng.random() < 0.06:
+                    d[name] = None
             return d
         machine, runs_l, exp_l = rlevel(), rlevel(), rlevel()
         execs = {e: rlevel() for e in ["E1", "E2"]}
@@ -340,6 +344,11 @@ def run(chk):
             ls = [machine, runs_l, exp_l, exec_entries[e], execs[e], suites[s], benches[(s, b)]]
             rnd_cases.append((canon_obs(obs_run(run_)), dict(levels=ls, cli=cli)))
             want = oracle_effective(ls, cli)
+            # the environment a process of the run is started with (RunId.env; the values here hold no ~): the effective env, whole
+            proc_env = dict(run_.env)
+            if proc_env != want["env"]:
+                chk.violation("C02 the environment a run's processes get is the env of the highest-priority level that defines one, as a whole",
+                              dict(config=raw, argv=argv, run=[e, s, b]), want["env"], proc_env)
             if obs_run(run_) != want:
                 chk.violation("C02 effective settings of a run (random configuration)",
                               dict(config=raw, argv=argv, run=[e, s, b]), want, obs_run(run_))
